@@ -33,6 +33,7 @@ type EntryCfg struct {
 	Note             string         `json:"note"`
 	MaxPaths         int            `json:"max_paths"`
 	Solver           string         `json:"solver"` // overrides the check's solver for this entry
+	IntFormatDigits  int            `json:"int_format_digits"` // per-entry override of the check-level setting
 }
 
 type CheckCfg struct {
@@ -58,6 +59,7 @@ type CheckCfg struct {
 	QueryTimeoutMs  int   `json:"query_timeout_ms"`
 	Workers         int   `json:"workers"`
 	StrAlphabet     string `json:"str_alphabet"`
+	IntFormatDigits int    `json:"int_format_digits"` // >0: integers are formatted exactly (decimal digits) under the path assumption 0 <= x < 10^digits, instead of by an uninterpreted injective function
 }
 
 type fnClass int
